@@ -242,6 +242,10 @@ func (g *Gateway) handleLegacyProtocol(w http.ResponseWriter, r *http.Request, t
 			handler := NewProcessor(g, t)
 			RegisterTunnel(t, handler)
 			defer RemoveTunnel(t)
+			// the tunnel ends with its packet loop: release the OUT channel
+			// and forget the connection id
+			defer c.Delete(t.RDGId)
+			defer t.transportOut.Close()
 			handler.Process(r.Context())
 		}
 	}
